@@ -15,7 +15,7 @@ from vf.gen import dims as gd
 from vf.models import dimlang as dl
 
 PNAMES = ["x", "y", "z", "u", "w"]
-CALL_NAMES = ["a", "b", "c", "n"]
+CALL_NAMES = ["a", "b", "c", "n", "e"]
 CALL_VNAMES = ["v", "w", "a"]
 
 
